@@ -35,6 +35,29 @@ theorem refund_ge_two {r a S x : Nat}
     (hent : (r + 2 * E) * S ≤ r * a * E) : 2 ≤ x :=
   Halo.C04.refund_ge_two h ha haS hent
 
+/-- burning more never pays less (same reserve and supply) -/
+theorem refund_mono_amount {r a a' S x x' : Nat}
+    (h : withdrawRefund r a S = .ok x) (h' : withdrawRefund r a' S = .ok x') (haa : a ≤ a') :
+    x ≤ x' :=
+  Halo.C04.refund_mono_amount h h' haa
+
+/-- a larger reserve (e.g. after a donation) never pays less for the same burn -/
+theorem refund_mono_reserve {r r' a S x x' : Nat}
+    (h : withdrawRefund r a S = .ok x) (h' : withdrawRefund r' a S = .ok x') (hrr : r ≤ r') :
+    x ≤ x' :=
+  Halo.C04.refund_mono_reserve h h' hrr
+
+/-- "never more" under splitting: two burns priced against the same reserve and supply never pay
+more than the single burn of their sum -/
+theorem refund_superadditive {r a b S x y z : Nat}
+    (ha : withdrawRefund r a S = .ok x) (hb : withdrawRefund r b S = .ok y)
+    (hab : withdrawRefund r (a + b) S = .ok z) : x + y ≤ z :=
+  Halo.C04.refund_superadditive ha hb hab
+
+/-- the three hypotheses of `refund_superadditive` are jointly satisfiable, strictly -/
+example : withdrawRefund 1000003 333 1000 = .ok 333000 ∧ withdrawRefund 1000003 334 1000 = .ok 334001 ∧
+    withdrawRefund 1000003 667 1000 = .ok 667002 := by decide
+
 example : withdrawRefund 1000003 333 1000 = .ok 333000 ∧ Spec.c04 1000003 333 1000 333000 = true := by decide
 
 end Halo.Props.C04
